@@ -18,6 +18,16 @@
 
 extern int heart_beat_flag;
 
+extern object_t *verif_restrict_destruct (void);	/* existing accessor (NEOLITH_VERIF) */
+
+/* between top-level operations restrict_destruct must be 0: it is set only while a move_or_destruct() apply runs and every
+   way out (return, error) puts it back.  A left-over value makes later destructs fail: reported as an unexpected line. */
+static void c11_check_restrict (void)
+{
+  if (verif_restrict_destruct ())
+    vh_out ("restrict_destruct-left-set");
+}
+
 static long c11_ticks = 0;
 static int c11_ready = 0;
 
@@ -96,6 +106,7 @@ static void c11_do (char *oid, char *op)
     }
   if (vh_apply_str (ob, "do_op", 1, a, 0, 0) == 1)
     vh_out ("r %s do_op !err", oid);
+  c11_check_restrict ();
 }
 
 /* harness-level id of an object (through the LPC registry) */
@@ -215,6 +226,7 @@ static void c11_tick (void)
     vh_out ("tickend");		/* the pass that reached the hook had called call_heart_beat() */
   /* command_giver after the pass (cleared after every heart_beat call, restored by restore_context after an error) */
   vh_out ("cg %s", command_giver ? c11_oid_of (command_giver) : "-");
+  c11_check_restrict ();
 }
 
 static int c11_cmd (char *line)
